@@ -237,6 +237,7 @@ type outcome struct {
 	aud             []audRow
 	after           *model // state the statement must leave (the old state when it failed)
 	sideEffectsKept *model // failed statement: target table restored, everything the triggers wrote kept (finding F4)
+	tentative       *model // failed statement: the state at the point of failure, nothing undone (finding F4, second mode)
 	counts          map[string]int
 	maxDepth        int
 	classes         map[string]bool
@@ -279,6 +280,7 @@ func (m *model) exec(st *stmt) *outcome {
 			kept.tabs["c"] = orig.tabs["c"]
 		}
 		out.sideEffectsKept = kept
+		out.tentative = w
 		return out
 	}
 	out.after = w
@@ -334,8 +336,8 @@ func (r *run) fire(table, time, event string, old, nw *trow, depth int) *execErr
 		r.out.maxDepth = depth
 	}
 	r.out.classes[fmt.Sprintf("%s:%c%c", table, time[0], event[0])] = true
-	if depth == 3 {
-		r.out.counts["fired.nested-depth-3"]++
+	if depth >= 2 {
+		r.out.counts[fmt.Sprintf("fired.nested-depth-%d", depth)]++
 	}
 	clause := false
 	for _, t := range ts {
@@ -515,4 +517,56 @@ func (r *run) execStmt(st *stmt, depth int) *execErr {
 		}
 	}
 	return nil
+}
+
+// misordered looks for the failure mode of finding follows-precedes-misorders-triggers: in a (table,
+// event) group that contains a FOLLOWS/PRECEDES trigger, the names fired per row are not "every BEFORE
+// trigger once, then every AFTER trigger once" (some fire twice, others never). Returns the group.
+func (m *model) misordered(aud []audRow) string {
+	byName := map[string]*trig{}
+	groups := map[string][]*trig{}
+	for _, t := range m.trigs {
+		byName[t.name] = t
+		g := t.table + "|" + t.event
+		groups[g] = append(groups[g], t)
+	}
+	for g, ts := range groups {
+		clause := false
+		nb := 0
+		for _, t := range ts {
+			if t.follows != "" || t.precedes != "" {
+				clause = true
+			}
+			if t.time == "BEFORE" {
+				nb++
+			}
+		}
+		if !clause {
+			continue
+		}
+		var names []*trig
+		for _, a := range aud {
+			if t := byName[a.trg]; t != nil && t.table+"|"+t.event == g {
+				names = append(names, t)
+			}
+		}
+		L := len(ts)
+		for pos := 0; pos < len(names); pos += L {
+			end := pos + L
+			if end > len(names) {
+				end = len(names)
+			}
+			seen := map[string]bool{}
+			for i, t := range names[pos:end] {
+				if seen[t.name] {
+					return g
+				}
+				seen[t.name] = true
+				if (i < nb) != (t.time == "BEFORE") {
+					return g
+				}
+			}
+		}
+	}
+	return ""
 }
